@@ -6,6 +6,7 @@ import GramModel.Typing
 import GramModel.Lemmas.RewriteTyping
 import GramModel.Lemmas.RewriteMore
 import GramModel.Lemmas.ResolveRename
+import GramModel.Lemmas.ParenTokens
 
 /-!
 # C19 — meaning-preserving rewrites change neither acceptance nor result
@@ -1002,6 +1003,197 @@ example : (reassoc .sumsAndDifferences none (.mk ⟨0, 12⟩ false (.bin .diff (
     (reassoc .sumsAndDifferences none prog19).isSome = true := ⟨by rfl, by rfl⟩
 
 end ParenExamples
+
+/-! ## Redundant parentheses at TOKEN level: wrapping the whole program
+
+(`Lemmas/ParenTokens.lean`, on top of the completeness of the parser model, `C07_parse_complete`.)
+`ParenTokens.wrapParens toks lp rp` is the token array `#[lp] ++ toks ++ #[rp]`. -/
+
+section ParenTokensSection
+open PModel
+
+/-- **A parse tree only depends on the tokens of its own segment**: a segment `[a, b)` of `toks` with
+parse tree `t` is, `pre.size` tokens further, a segment of `pre ++ toks ++ post` with THE SAME tree (all
+source ranges of a parse tree are read off the tokens of the segment). -/
+def C19_segment_shift_stmt : Prop :=
+  ∀ (toks pre post : Array PTok) (A : NT) (a b : Nat) (t : Src), SegT toks A a b t →
+    SegT (pre ++ toks ++ post) A (a + pre.size) (b + pre.size) t
+theorem C19_segment_shift : C19_segment_shift_stmt :=
+  fun _ pre post _ _ _ _ h => ParenTokens.segT_shift pre post h
+
+/-- **A sentence in parentheses is a sentence**; its parse tree is the sentence's tree with the range
+from `(` to `)`, `group = true`, and the same `variant` (the same children, with the same ranges). -/
+def C19_paren_sentence_stmt : Prop :=
+  ∀ (toks : Array PTok) (t : Src) (lp rp : PTok), lp.kind = .leftParen → rp.kind = .rightParen →
+    SegT toks .term 0 toks.size t →
+    (ParenTokens.wrapParens toks lp rp).size = toks.size + 2 ∧
+    SegT (ParenTokens.wrapParens toks lp rp) .term 0 (toks.size + 2)
+      (.mk (rng (ParenTokens.wrapParens toks lp rp) 0 (toks.size + 2)) true t.variant [])
+theorem C19_paren_sentence : C19_paren_sentence_stmt := by
+  intro toks t lp rp hl hr h
+  have hs := ParenTokens.wrapParens_size toks lp rp
+  have := ParenTokens.segT_wrap lp rp hl hr h
+  rw [hs] at this
+  exact ⟨hs, this⟩
+
+/-- `check_definitions` only appends diagnostics to the vector it is given … -/
+def C19_check_definitions_appends_stmt : Prop :=
+  ∀ (t : RTm) (depth : Nat) (es : List PErr),
+    checkDefinitions t depth es = (checkDefinitions t depth []).map (es ++ ·)
+theorem C19_check_definitions_appends : C19_check_definitions_appends_stmt :=
+  ParenTokens.checkDefinitions_app
+
+/-- … and never reads the source range of the root node. -/
+def C19_check_definitions_root_stmt : Prop :=
+  ∀ (t t' : RTm) (depth : Nat) (es : List PErr), t'.variant = t.variant →
+    checkDefinitions t' depth es = checkDefinitions t depth es
+theorem C19_check_definitions_root : C19_check_definitions_root_stmt :=
+  fun _ _ depth es h => ParenTokens.checkDefinitions_top h depth es
+
+/-- **Wrapping the whole program in parentheses changes nothing but source ranges** (the whole of
+`parse`: parse phase, error collection, the three re-association passes, name resolution against any
+parameter context, the definition-order check).  If `toks` is a sentence of the grammar, `parse` gives
+on `( toks )` the same outcome as on `toks` up to (`ParenTokens.outView`): the source range of the ROOT
+node of the accepted term (`RTm.variant` is compared: the whole resolved term — names, de Bruijn
+indices, hole ids, every inner source range — minus the root's range), and the ranges inside the
+diagnostics (their NUMBER is compared).  The definition-order verdict is the same. -/
+def C19_paren_program_tokens_stmt : Prop :=
+  ∀ (toks : Array PTok) (t : Src) (lp rp : PTok) (context : List Name),
+    lp.kind = .leftParen → rp.kind = .rightParen → SegT toks .term 0 toks.size t →
+    ParenTokens.outView (parseModel (ParenTokens.wrapParens toks lp rp) context) =
+      ParenTokens.outView (parseModel toks context)
+theorem C19_paren_program_tokens : C19_paren_program_tokens_stmt :=
+  fun _ _ lp rp context hl hr h => ParenTokens.paren_program_tokens lp rp hl hr h context
+
+/-- The same with the hypothesis "the parse phase accepts `toks`" (every token consumed, no syntax
+error recorded: by `C07_accepted_iff_sentence` that is "`toks` is a sentence"); then the parse phase
+accepts `( toks )` too. -/
+def C19_paren_program_tokens_accepted_stmt : Prop :=
+  ∀ (toks : Array PTok) (lp rp : PTok) (context : List Name),
+    lp.kind = .leftParen → rp.kind = .rightParen →
+    (∃ r st, runParser toks = some (r, st) ∧ r.next = toks.size ∧ collectErrors r.term = []) →
+    (∃ r st, runParser (ParenTokens.wrapParens toks lp rp) = some (r, st) ∧
+      r.next = (ParenTokens.wrapParens toks lp rp).size ∧ collectErrors r.term = []) ∧
+    ParenTokens.outView (parseModel (ParenTokens.wrapParens toks lp rp) context) =
+      ParenTokens.outView (parseModel toks context)
+theorem C19_paren_program_tokens_accepted : C19_paren_program_tokens_accepted_stmt :=
+  fun _ lp rp context hl hr h => ParenTokens.paren_program_tokens_accepted lp rp hl hr h context
+
+/-- In plain terms: the two programs are accepted together, with resolved terms that differ at most
+in the range of the root (in particular the same de Bruijn term, `.erase`); rejected together, with
+the same number of diagnostics; panic / run out of the model's fuel together. -/
+def C19_paren_program_tokens_plain_stmt : Prop :=
+  ∀ (toks : Array PTok) (t : Src) (lp rp : PTok) (context : List Name),
+    lp.kind = .leftParen → rp.kind = .rightParen → SegT toks .term 0 toks.size t →
+    (∀ r, parseModel toks context = .ok r →
+      ∃ r', parseModel (ParenTokens.wrapParens toks lp rp) context = .ok r' ∧
+        r'.variant = r.variant ∧ r'.erase = r.erase) ∧
+    (∀ r', parseModel (ParenTokens.wrapParens toks lp rp) context = .ok r' →
+      ∃ r, parseModel toks context = .ok r ∧ r'.variant = r.variant ∧ r'.erase = r.erase) ∧
+    (∀ es, parseModel toks context = .errors es →
+      ∃ es', parseModel (ParenTokens.wrapParens toks lp rp) context = .errors es' ∧
+        es'.length = es.length) ∧
+    (∀ es', parseModel (ParenTokens.wrapParens toks lp rp) context = .errors es' →
+      ∃ es, parseModel toks context = .errors es ∧ es'.length = es.length) ∧
+    (parseModel (ParenTokens.wrapParens toks lp rp) context = .panic ↔
+      parseModel toks context = .panic) ∧
+    (parseModel (ParenTokens.wrapParens toks lp rp) context = .outOfFuel ↔
+      parseModel toks context = .outOfFuel)
+theorem C19_paren_program_tokens_plain : C19_paren_program_tokens_plain_stmt :=
+  fun _ _ lp rp context hl hr h => ParenTokens.paren_program_tokens_plain lp rp hl hr h context
+
+/-! ### Non-vacuity: ` f x + 1` against `(f x + 1)`, parameters `f`, `x` -/
+
+/-- the tokens of ` f x + 1` (names `f` = 1, `x` = 2; bytes 1‥8) -/
+def C19_fxToks : Array PTok := #[
+  ⟨.identifier 1, ⟨1, 2⟩⟩, ⟨.identifier 2, ⟨3, 4⟩⟩, ⟨.plus, ⟨5, 6⟩⟩, ⟨.integerLiteral 1, ⟨7, 8⟩⟩]
+def C19_lp : PTok := ⟨.leftParen, ⟨0, 1⟩⟩
+def C19_rp : PTok := ⟨.rightParen, ⟨8, 9⟩⟩
+
+/-- ` f x + 1` is accepted, resolves to `f x + 1` with `f`, `x` the two parameters, and is a sentence -/
+def C19_fx_plain_stmt : Prop :=
+    (∃ r, parseModel C19_fxToks [1, 2] = .ok r ∧
+      r.erase = .bin .sum (.app (.var 1 1) (.var 2 0)) (.lit 1)) ∧
+    ∃ t, SegT C19_fxToks .term 0 C19_fxToks.size t
+theorem C19_fx_plain : C19_fx_plain_stmt :=
+  ParenTokens.parseModel_eval C19_fxToks 60 [1, 2] _ (by decide +kernel)
+
+/-- `(f x + 1)`, evaluated on its own: accepted, the same resolved term -/
+def C19_fx_wrapped_stmt : Prop :=
+    ∃ r, parseModel (ParenTokens.wrapParens C19_fxToks C19_lp C19_rp) [1, 2] = .ok r ∧
+      r.erase = .bin .sum (.app (.var 1 1) (.var 2 0)) (.lit 1)
+theorem C19_fx_wrapped : C19_fx_wrapped_stmt :=
+  (ParenTokens.parseModel_eval (ParenTokens.wrapParens C19_fxToks C19_lp C19_rp) 60 [1, 2] _
+    (by decide +kernel)).1
+
+-- the hypotheses of `C19_paren_program_tokens` hold of it, and the theorem gives the second fact from
+-- the first
+example : ∃ r', parseModel (ParenTokens.wrapParens C19_fxToks C19_lp C19_rp) [1, 2] = .ok r' ∧
+    r'.erase = .bin .sum (.app (.var 1 1) (.var 2 0)) (.lit 1) := by
+  obtain ⟨⟨r, h1, h2⟩, t, ht⟩ := C19_fx_plain
+  obtain ⟨r', h3, _, h4⟩ :=
+    (C19_paren_program_tokens_plain C19_fxToks t C19_lp C19_rp [1, 2] rfl rfl ht).1 r h1
+  exact ⟨r', h3, h4.trans h2⟩
+
+-- a rejected sentence: without the parameters both programs get two scope diagnostics
+example : ∃ es es', parseModel C19_fxToks [] = .errors es ∧
+    parseModel (ParenTokens.wrapParens C19_fxToks C19_lp C19_rp) [] = .errors es' ∧
+    es'.length = es.length := by
+  obtain ⟨_, t, ht⟩ := C19_fx_plain
+  have e := C19_paren_program_tokens C19_fxToks t C19_lp C19_rp [] rfl rfl ht
+  cases h : parseModel C19_fxToks [] with
+  | errors es =>
+    rw [h] at e
+    obtain ⟨es', h1, h2⟩ := ParenTokens.outView_errors e
+    exact ⟨es, es', rfl, h1, h2⟩
+  | ok r =>
+    exfalso
+    obtain ⟨r0, st, hr, ho⟩ := runParser_eval C19_fxToks 60
+      (fun r => ParenTokens.okErase (finishParse C19_fxToks [] r.term r.next)) none (by decide +kernel)
+    unfold parseModel at h
+    rw [hr] at h
+    simp only at h
+    rw [h] at ho
+    cases ho
+  | panic =>
+    exfalso
+    obtain ⟨r0, st, hr, ho⟩ := runParser_eval C19_fxToks 60
+      (fun r => (match finishParse C19_fxToks [] r.term r.next with | .errors es => es.length | _ => 0))
+      2 (by decide +kernel)
+    unfold parseModel at h
+    rw [hr] at h
+    simp only at h
+    rw [h] at ho
+    cases ho
+  | outOfFuel =>
+    exfalso
+    obtain ⟨r0, st, hr, ho⟩ := runParser_eval C19_fxToks 60
+      (fun r => (match finishParse C19_fxToks [] r.term r.next with | .errors es => es.length | _ => 0))
+      2 (by decide +kernel)
+    unfold parseModel at h
+    rw [hr] at h
+    simp only at h
+    rw [h] at ho
+    cases ho
+
+/-! ### Parentheses around one operand, at token level: kernel-checked instances only
+
+`f x + (1)` and `f (x) + 1` resolve to the same term as `f x + 1` (the general token-level statement
+for an operand — a derivation with a distinguished `atom` sub-derivation, followed through the three
+passes — is not proved in this development; `C19_paren_operand` is its re-association step). -/
+
+def C19_fx_operand_instances_stmt : Prop :=
+    (∃ r, parseModel #[⟨.identifier 1, ⟨0, 1⟩⟩, ⟨.identifier 2, ⟨2, 3⟩⟩, ⟨.plus, ⟨4, 5⟩⟩,
+        ⟨.leftParen, ⟨6, 7⟩⟩, ⟨.integerLiteral 1, ⟨7, 8⟩⟩, ⟨.rightParen, ⟨8, 9⟩⟩] [1, 2] = .ok r ∧
+      r.erase = .bin .sum (.app (.var 1 1) (.var 2 0)) (.lit 1)) ∧
+    (∃ r, parseModel #[⟨.identifier 1, ⟨0, 1⟩⟩, ⟨.leftParen, ⟨2, 3⟩⟩, ⟨.identifier 2, ⟨3, 4⟩⟩,
+        ⟨.rightParen, ⟨4, 5⟩⟩, ⟨.plus, ⟨6, 7⟩⟩, ⟨.integerLiteral 1, ⟨8, 9⟩⟩] [1, 2] = .ok r ∧
+      r.erase = .bin .sum (.app (.var 1 1) (.var 2 0)) (.lit 1))
+theorem C19_fx_operand_instances : C19_fx_operand_instances_stmt :=
+  ⟨(ParenTokens.parseModel_eval _ 60 [1, 2] _ (by decide +kernel)).1,
+   (ParenTokens.parseModel_eval _ 60 [1, 2] _ (by decide +kernel)).1⟩
+
+end ParenTokensSection
 
 /-! ## Consistent renaming of bound variables, at source level
 
